@@ -475,8 +475,8 @@ V("init-trigger-vector-or", "break", ["C01", "C08", "C13"], PB,
   "            for prop_var_idx, prop_var in enumerate(prop_vars):\n                self.triggers[self.dom_indices_arr[prop_var], propagator_idx] |= triggers[prop_var_idx]\n",
   "            self.triggers[self.dom_indices_arr[prop_vars], propagator_idx] |= triggers\n", "wake-up table filled by one fancy-indexed |= (repeated index keeps the last write)", "init")
 V("addvar-or-default", "break", ["C01", "C13"], PB,
-  "        if dom_index is None:\n            dom_index = insertion_idx\n        if dom_offset is None:\n            dom_offset = 0\n",
-  "        dom_index = dom_index or insertion_idx\n        dom_offset = dom_offset or 0\n", "dom_index=0 treated as 'not given'", "add_variable")
+  "        if dom_index is None:\n            dom_index = len(self.shr_domains_lst)  # the index of the extra shared domain\n        if dom_offset is None:\n            dom_offset = 0\n",
+  "        dom_index = dom_index or len(self.shr_domains_lst)\n        dom_offset = dom_offset or 0\n", "dom_index=0 treated as 'not given'", "add_variable")
 V("addvar-offset-or-zero-neutral", "neutral", ["C01", "C13"], PB,
   "        if dom_offset is None:\n            dom_offset = 0\n", "        dom_offset = dom_offset or 0\n", "`x or 0`: 0 and 'not given' resolve to the same 0")
 V("split-inplace-neutral", "neutral", ["C12", "C13", "C11"], PB, "            problem.shr_domains_lst[var_idx] = [min_idx, max_idx]\n",
@@ -809,3 +809,8 @@ V("init-reads-posting-order-list", "break", ["C13"], PB, None, None, "a per-cons
          {"old": "        self.propagators.append(propagator)\n", "new": "        self.propagators.append(propagator)\n        self.prop_arity.append(len(propagator[0]))\n"},
          {"old": "            self.var_bounds[propagator_idx, RG_END] = self.var_bounds[propagator_idx, RG_START] + len(prop_vars)\n",
           "new": "            self.var_bounds[propagator_idx, RG_END] = self.var_bounds[propagator_idx, RG_START] + self.prop_arity[propagator_idx]\n"}])
+V("addvar-counts-variables", "break", ["C13"], PB, "        self.shr_domain_nb = len(self.shr_domains_lst)\n        return insertion_idx\n\n    def add_variables(",
+  "        self.shr_domain_nb = len(self.dom_indices_lst)\n        return insertion_idx\n\n    def add_variables(",
+  "the number of shared domains set to the number of variables (the pinned tree's defect)", "add_variable")
+V("addvars-return-domain-position", "break", ["C13"], PB, "        insertion_idx = len(self.dom_indices_lst)  # the index of the first extra variable\n",
+  "        insertion_idx = len(self.shr_domains_lst)\n", "add_variables returns a position among the shared domains (the pinned tree's defect)", "add_variables")
